@@ -832,6 +832,20 @@ func runC12(c *config) {
 			inputs = append(inputs, sb.String())
 		}
 	}
+	// a wide module in which every function uses an attribute group that is defined nowhere (materialised as an empty
+	// group while the functions are translated) next to as many defined groups: whatever the translator does with
+	// its tables while it walks them, it does it here two thousand times
+	{
+		var sb strings.Builder
+		nw := 2000
+		for k := 0; k < nw; k++ {
+			fmt.Fprintf(&sb, "declare void @w%d() #%d\n", k, 2*k+1)
+		}
+		for k := 0; k < nw; k++ {
+			fmt.Fprintf(&sb, "attributes #%d = { nounwind }\n", 2*k)
+		}
+		inputs = append(inputs, sb.String())
+	}
 	// bytes that only mean something to one of the entry points: CR LF inside quoted strings (a section name, a
 	// metadata string, a character array whose length counts both bytes), CR LF and a lone CR between tokens
 	inputs = append(inputs,
